@@ -147,7 +147,9 @@ def normIdx (n : Nat) (a : Int) : Nat := if a < 0 then (a + n).toNat else min a.
 
 /-- `buf[a:b] = v` -/
 def sliceAssign (buf : List Int) (a b : Int) (v : Int) : List Int :=
-  buf.mapIdx (fun k x => if normIdx buf.length a ≤ k ∧ k < normIdx buf.length b then v else x)
+  let lo := normIdx buf.length a
+  let hi := normIdx buf.length b
+  buf.mapIdx (fun k x => if lo ≤ k ∧ k < hi then v else x)
 
 /-- `for i_p in range(len(period_deltas)-1): period_per_day[period_deltas[i_p]:period_deltas[i_p+1]] = i_p` -/
 def fillLoop : List Int → Nat → List Int → List Int
